@@ -98,5 +98,625 @@ theorem certOK_of_check {p : Program} {c : Cert} (h : checkCert p c = true) :
     exact this.2
   · cases hm
 
+/-! ### memory access inside a frame -/
+
+theorem rd_ok {d : List Int} {i : Int} (h0 : 0 ≤ i) (h1 : i.toNat < d.length) :
+    ∃ v, rd d i = .ok v := by
+  unfold rd
+  rw [if_neg (by omega), List.getElem?_eq_getElem h1]
+  exact ⟨_, rfl⟩
+
+theorem wr_ok {d : List Int} {i : Int} (v : Int) (h0 : 0 ≤ i) (h1 : i.toNat < d.length) :
+    ∃ d', wr d i v = .ok d' := by
+  unfold wr
+  rw [if_neg (by omega), if_pos h1]
+  exact ⟨_, rfl⟩
+
+theorem regOK_iff {r : Int} {f : Nat} : regOK r f = true ↔ 0 ≤ r ∧ r < (f : Int) := by
+  unfold regOK
+  rw [Bool.and_eq_true, decide_eq_true_eq, decide_eq_true_eq]
+
+theorem checkPc_erase (p : Program) (c : Cert) (root pc : Nat) (i : Instr) (I : PcInfo) :
+    checkPc p c root pc i.erase I = checkPc p c root pc i I := by
+  cases i <;> rfl
+
+theorem tiles_bound : ∀ (st : List Act) (n : Nat), Tiles st n →
+    ∀ a ∈ st, a.dataStart + a.segSize.toNat ≤ n := by
+  intro st
+  induction st with
+  | nil => intro n _ a ha; cases ha
+  | cons b rest ih =>
+    intro n h a ha
+    obtain ⟨_, h2, h3⟩ := h
+    rcases List.mem_cons.1 ha with rfl | ha
+    · omega
+    · have := ih _ h3 a ha
+      omega
+
+/-! ### the invariant -/
+
+/-- stack-map index valid and every mapped register inside the frame -/
+def ActMap (p : Program) (a : Act) : Prop := mapOK p a.dbg a.segSize.toNat = true ∧ 0 ≤ a.segSize
+
+/-- the activations below the executing one: each return address is annotated with the frame
+    and routine of the caller, and routine ids strictly increase towards the root -/
+def Chain (p : Program) (c : Cert) (root : Nat) : Nat → Act → List Act → Prop
+  | rid, _, [] => rid = root
+  | rid, a, b :: rest =>
+    ∃ J, c.info a.retAddr = some J ∧ J.pend = none ∧ b.segSize = (J.frame : Int) ∧ rid < J.rid ∧
+      0 ≤ a.retTarget ∧ a.retTarget < (J.frame : Int) ∧ ActMap p b ∧ Chain p c root J.rid b rest
+
+/-- the executing activation (frame size `frame`, routine `rid`) on top of its callers -/
+def TopOK (p : Program) (c : Cert) (root frame rid : Nat) (st : List Act) : Prop :=
+  ∃ a rest, st = a :: rest ∧ a.segSize = (frame : Int) ∧ ActMap p a ∧ Chain p c root rid a rest
+
+def StackOK (p : Program) (c : Cert) (root : Nat) (I : PcInfo) (st : List Act) : Prop :=
+  (I.pend = none → TopOK p c root I.frame I.rid st) ∧
+  (∀ cf j, I.pend = some (cf, j) → ∃ callee rest, st = callee :: rest ∧
+    callee.segSize = (cf : Int) ∧ ActMap p callee ∧ 0 ≤ callee.retTarget ∧
+    callee.retTarget < (I.frame : Int) ∧ j < I.rid ∧ TopOK p c root I.frame I.rid rest)
+
+def WInv (p : Program) (c : Cert) (root : Nat) (vm : VM) : Prop :=
+  (vm.ip = 0 ∧ vm.stack = [] ∧ vm.data = []) ∨
+  (∃ I, c.info vm.ip = some I ∧ StackOK p c root I vm.stack ∧ Tiles vm.stack vm.data.length)
+
+section
+variable {p : Program} {c : Cert} {root : Nat}
+
+theorem chain_retAddr {rid : Nat} {a a' : Act} {rest : List Act}
+    (e1 : a'.retAddr = a.retAddr) (e2 : a'.retTarget = a.retTarget)
+    (h : Chain p c root rid a rest) : Chain p c root rid a' rest := by
+  cases rest with
+  | nil => exact h
+  | cons b rest =>
+    simp only [Chain] at h ⊢
+    rw [e1, e2]; exact h
+
+theorem chain_len : ∀ (rest : List Act) (rid : Nat) (a : Act), Chain p c root rid a rest →
+    rest.length + rid ≤ root := by
+  intro rest
+  induction rest with
+  | nil => intro rid a h; simp only [Chain] at h; simp only [List.length_nil]; omega
+  | cons b rest ih =>
+    intro rid a h
+    simp only [Chain] at h
+    obtain ⟨J, _, _, _, hlt, _, _, _, hch⟩ := h
+    have := ih _ _ hch
+    simp only [List.length_cons]
+    omega
+
+theorem chain_actMap : ∀ (rest : List Act) (rid : Nat) (a : Act), Chain p c root rid a rest →
+    ∀ b ∈ rest, ActMap p b := by
+  intro rest
+  induction rest with
+  | nil => intro rid a _ b hb; cases hb
+  | cons b rest ih =>
+    intro rid a h x hx
+    simp only [Chain] at h
+    obtain ⟨J, _, _, _, _, _, _, hb, hch⟩ := h
+    rcases List.mem_cons.1 hx with rfl | hx
+    · exact hb
+    · exact ih _ _ hch x hx
+
+theorem topOK_actMap {frame rid : Nat} {st : List Act} (h : TopOK p c root frame rid st) :
+    ∀ a ∈ st, ActMap p a := by
+  obtain ⟨a, rest, rfl, _, ha, hch⟩ := h
+  intro x hx
+  rcases List.mem_cons.1 hx with rfl | hx
+  · exact ha
+  · exact chain_actMap _ _ _ hch x hx
+
+theorem topOK_len {frame rid : Nat} {st : List Act} (h : TopOK p c root frame rid st) :
+    st.length + rid ≤ root + 1 := by
+  obtain ⟨a, rest, rfl, _, _, hch⟩ := h
+  have := chain_len _ _ _ hch
+  simp only [List.length_cons]
+  omega
+
+theorem stackOK_actMap {I : PcInfo} {st : List Act} (h : StackOK p c root I st) :
+    ∀ a ∈ st, ActMap p a := by
+  cases hp : I.pend with
+  | none => exact topOK_actMap (h.1 hp)
+  | some cj =>
+    obtain ⟨cf, j⟩ := cj
+    obtain ⟨callee, rest, rfl, _, hc, _, _, _, ht⟩ := h.2 cf j hp
+    intro x hx
+    rcases List.mem_cons.1 hx with rfl | hx
+    · exact hc
+    · exact topOK_actMap ht x hx
+
+theorem stackOK_len {I : PcInfo} {st : List Act} (h : StackOK p c root I st) :
+    st.length ≤ root + 1 := by
+  cases hp : I.pend with
+  | none =>
+    have := topOK_len (h.1 hp)
+    omega
+  | some cj =>
+    obtain ⟨cf, j⟩ := cj
+    obtain ⟨callee, rest, rfl, _, _, _, _, hj, ht⟩ := h.2 cf j hp
+    have := topOK_len ht
+    simp only [List.length_cons]
+    omega
+
+theorem winv_actMap {vm : VM} (h : WInv p c root vm) : ∀ a ∈ vm.stack, ActMap p a := by
+  rcases h with ⟨_, hs, _⟩ | ⟨I, _, hs, _⟩
+  · rw [hs]; intro a ha; cases ha
+  · exact stackOK_actMap hs
+
+theorem winv_tiles {vm : VM} (h : WInv p c root vm) : Tiles vm.stack vm.data.length := by
+  rcases h with ⟨_, hs, hd⟩ | ⟨I, _, _, ht⟩
+  · rw [hs, hd]; rfl
+  · exact ht
+
+theorem winv_len {vm : VM} (h : WInv p c root vm) : vm.stack.length ≤ root + 1 := by
+  rcases h with ⟨_, hs, _⟩ | ⟨I, _, hs, _⟩
+  · rw [hs]; simp
+  · exact stackOK_len hs
+
+/-- a state with the same annotation, the same stack and as many data words -/
+theorem winv_same {vm vm' : VM} {I : PcInfo} (hi : c.info vm'.ip = some I)
+    (hs : StackOK p c root I vm.stack) (ht : Tiles vm.stack vm.data.length)
+    (e1 : vm'.stack = vm.stack) (e2 : vm'.data.length = vm.data.length) : WInv p c root vm' :=
+  Or.inr ⟨I, hi, by rw [e1]; exact hs, by rw [e1, e2]; exact ht⟩
+
+end
+
+/-! ### one lemma per instruction: the step is defined and re-establishes the invariant -/
+
+section
+variable {p : Program} {c : Cert} {root : Nat}
+
+theorem exec_potBreak {vm : VM} {pc : Nat} {I : PcInfo}
+    (hip : vm.ip = pc) (hs : StackOK p c root I vm.stack) (ht : Tiles vm.stack vm.data.length)
+    (hk : checkPc p c root pc .potBreak I = true) :
+    ∃ r, execI .potBreak vm = .ok r ∧ WInv p c root r.1 := by
+  simp only [checkPc, Bool.and_eq_true, beq_iff_eq] at hk
+  refine ⟨({ vm with ip := vm.ip + 1 }, vm.stepping), rfl, ?_⟩
+  exact winv_same (vm := vm) (by show c.info (vm.ip + 1) = some I; rw [hip]; exact hk.2) hs ht rfl rfl
+
+theorem exec_brk {vm : VM} {pc : Nat} {I : PcInfo}
+    (hip : vm.ip = pc) (hs : StackOK p c root I vm.stack) (ht : Tiles vm.stack vm.data.length)
+    (hk : checkPc p c root pc .brk I = true) :
+    ∃ r, execI .brk vm = .ok r ∧ WInv p c root r.1 := by
+  simp only [checkPc, Bool.and_eq_true, beq_iff_eq] at hk
+  refine ⟨({ vm with ip := vm.ip + 1 }, true), rfl, ?_⟩
+  exact winv_same (vm := vm) (by show c.info (vm.ip + 1) = some I; rw [hip]; exact hk.2) hs ht rfl rfl
+
+theorem exec_halt {vm : VM} {I : PcInfo}
+    (hi : c.info vm.ip = some I) (hs : StackOK p c root I vm.stack)
+    (ht : Tiles vm.stack vm.data.length) :
+    ∃ r, execI .halt vm = .ok r ∧ WInv p c root r.1 :=
+  ⟨(vm, true), rfl, Or.inr ⟨I, hi, hs, ht⟩⟩
+
+theorem exec_jmp {vm : VM} {pc : Nat} {I : PcInfo} {off : Int}
+    (hip : vm.ip = pc) (hs : StackOK p c root I vm.stack) (ht : Tiles vm.stack vm.data.length)
+    (hk : checkPc p c root pc (.jmp off) I = true) :
+    ∃ r, execI (.jmp off) vm = .ok r ∧ WInv p c root r.1 := by
+  simp only [checkPc, Bool.and_eq_true, beq_iff_eq] at hk
+  refine ⟨({ vm with ip := vm.ip + off }, false), rfl, ?_⟩
+  exact winv_same (vm := vm) (by show c.info (vm.ip + off) = some I; rw [hip]; exact hk.2) hs ht rfl rfl
+
+/-- the frame of the executing activation lies inside the data -/
+theorem top_frame {frame rid : Nat} {st : List Act} {n : Nat}
+    (h : TopOK p c root frame rid st) (ht : Tiles st n) :
+    ∃ a rest, st = a :: rest ∧ a.segSize = (frame : Int) ∧ a.dataStart + frame ≤ n := by
+  obtain ⟨a, rest, rfl, hseg, _, _⟩ := h
+  obtain ⟨_, h2, _⟩ := ht
+  exact ⟨a, rest, rfl, hseg, by omega⟩
+
+theorem exec_add {vm : VM} {pc : Nat} {I : PcInfo} {t s k : Int}
+    (hip : vm.ip = pc) (hs : StackOK p c root I vm.stack) (ht : Tiles vm.stack vm.data.length)
+    (hk : checkPc p c root pc (.add t s k) I = true) :
+    ∃ r, execI (.add t s k) vm = .ok r ∧ WInv p c root r.1 := by
+  simp only [checkPc, Bool.and_eq_true, beq_iff_eq, regOK_iff, Option.isNone_iff_eq_none] at hk
+  obtain ⟨⟨⟨hp, ht1⟩, hs1⟩, hn⟩ := hk
+  obtain ⟨a, rest, hst, hseg, hb⟩ := top_frame (hs.1 hp) ht
+  obtain ⟨v, hv⟩ := rd_ok (d := vm.data) (i := a.dataStart + s) (by omega) (by omega)
+  obtain ⟨d, hd⟩ := wr_ok (d := vm.data) (i := a.dataStart + t) (addClamp v k) (by omega) (by omega)
+  refine ⟨({ vm with data := d, ip := vm.ip + 1 }, false), ?_, ?_⟩
+  · simp only [execI, hst, bind, Except.bind, hv, hd, pure, Except.pure]
+  · exact winv_same (vm := vm) (by show c.info (vm.ip + 1) = some I; rw [hip]; exact hn) hs ht rfl
+      (wr_length hd)
+
+theorem exec_test {vm : VM} {pc : Nat} {I : PcInfo} {t x y : Int}
+    (hip : vm.ip = pc) (hs : StackOK p c root I vm.stack) (ht : Tiles vm.stack vm.data.length)
+    (hk : checkPc p c root pc (.test t x y) I = true) :
+    ∃ r, execI (.test t x y) vm = .ok r ∧ WInv p c root r.1 := by
+  simp only [checkPc, Bool.and_eq_true, beq_iff_eq, regOK_iff, Option.isNone_iff_eq_none] at hk
+  obtain ⟨⟨⟨⟨hp, ht1⟩, hx1⟩, hy1⟩, hn⟩ := hk
+  obtain ⟨a, rest, hst, hseg, hb⟩ := top_frame (hs.1 hp) ht
+  obtain ⟨v1, hv1⟩ := rd_ok (d := vm.data) (i := a.dataStart + x) (by omega) (by omega)
+  obtain ⟨v2, hv2⟩ := rd_ok (d := vm.data) (i := a.dataStart + y) (by omega) (by omega)
+  obtain ⟨d, hd⟩ := wr_ok (d := vm.data) (i := a.dataStart + t) (if v1 = v2 then 0 else 1)
+    (by omega) (by omega)
+  refine ⟨({ vm with data := d, ip := vm.ip + 1 }, false), ?_, ?_⟩
+  · simp only [execI, hst, bind, Except.bind, hv1, hv2, hd, pure, Except.pure]
+  · exact winv_same (vm := vm) (by show c.info (vm.ip + 1) = some I; rw [hip]; exact hn) hs ht rfl
+      (wr_length hd)
+
+theorem exec_const {vm : VM} {pc : Nat} {I : PcInfo} {t k : Int}
+    (hip : vm.ip = pc) (hs : StackOK p c root I vm.stack) (ht : Tiles vm.stack vm.data.length)
+    (hk : checkPc p c root pc (.const t k) I = true) :
+    ∃ r, execI (.const t k) vm = .ok r ∧ WInv p c root r.1 := by
+  simp only [checkPc, Bool.and_eq_true, beq_iff_eq, regOK_iff, Option.isNone_iff_eq_none] at hk
+  obtain ⟨⟨hp, ht1⟩, hn⟩ := hk
+  obtain ⟨a, rest, hst, hseg, hb⟩ := top_frame (hs.1 hp) ht
+  obtain ⟨d, hd⟩ := wr_ok (d := vm.data) (i := a.dataStart + t) k (by omega) (by omega)
+  refine ⟨({ vm with data := d, ip := vm.ip + 1 }, false), ?_, ?_⟩
+  · simp only [execI, hst, bind, Except.bind, hd, pure, Except.pure]
+  · exact winv_same (vm := vm) (by show c.info (vm.ip + 1) = some I; rw [hip]; exact hn) hs ht rfl
+      (wr_length hd)
+
+theorem exec_jmpc {vm : VM} {pc : Nat} {I : PcInfo} {off s : Int}
+    (hip : vm.ip = pc) (hs : StackOK p c root I vm.stack) (ht : Tiles vm.stack vm.data.length)
+    (hk : checkPc p c root pc (.jmpc off s) I = true) :
+    ∃ r, execI (.jmpc off s) vm = .ok r ∧ WInv p c root r.1 := by
+  simp only [checkPc, Bool.and_eq_true, beq_iff_eq, regOK_iff, Option.isNone_iff_eq_none] at hk
+  obtain ⟨⟨⟨hp, hs1⟩, hj⟩, hn⟩ := hk
+  obtain ⟨a, rest, hst, hseg, hb⟩ := top_frame (hs.1 hp) ht
+  obtain ⟨v, hv⟩ := rd_ok (d := vm.data) (i := a.dataStart + s) (by omega) (by omega)
+  refine ⟨({ vm with ip := if v = 0 then vm.ip + off else vm.ip + 1 }, false), ?_, ?_⟩
+  · simp only [execI, hst, bind, Except.bind, hv, pure, Except.pure]
+  · refine winv_same (vm := vm) ?_ hs ht rfl rfl
+    show c.info (if v = 0 then vm.ip + off else vm.ip + 1) = some I
+    rw [hip]
+    split
+    · exact hj
+    · exact hn
+
+theorem exec_prepare {vm : VM} {pc : Nat} {I : PcInfo} {cnt idx tgt : Int}
+    (hip : vm.ip = pc) (hs : StackOK p c root I vm.stack) (ht : Tiles vm.stack vm.data.length)
+    (hk : checkPc p c root pc (.prepare cnt idx tgt) I = true) :
+    ∃ r, execI (.prepare cnt idx tgt) vm = .ok r ∧ WInv p c root r.1 := by
+  simp only [checkPc, Bool.and_eq_true, decide_eq_true_eq, regOK_iff,
+    Option.isNone_iff_eq_none] at hk
+  obtain ⟨⟨⟨⟨hp, hcnt⟩, htgt⟩, hmap⟩, hm⟩ := hk
+  refine ⟨({ vm with data := vm.data ++ List.replicate cnt.toNat 0,
+                     stack := ⟨vm.data.length, cnt, tgt, -1, idx⟩ :: vm.stack,
+                     ip := vm.ip + 1 }, false), rfl, ?_⟩
+  split at hm
+  · rename_i N hN
+    simp only [Bool.and_eq_true, beq_iff_eq] at hm
+    obtain ⟨⟨hfr, hrid⟩, hm⟩ := hm
+    split at hm
+    · rename_i cf j hpend
+      rw [Bool.and_eq_true, beq_iff_eq, decide_eq_true_eq] at hm
+      obtain ⟨hm, hjr⟩ := hm
+      refine Or.inr ⟨N, by show c.info (vm.ip + 1) = some N; rw [hip]; exact hN, ⟨?_, ?_⟩, ?_⟩
+      · intro h; rw [h] at hpend; cases hpend
+      · intro cf' j' h
+        rw [hpend] at h
+        cases h
+        refine ⟨_, _, rfl, ?_, ⟨hmap, hcnt⟩, htgt.1, by rw [hfr]; exact htgt.2,
+          by rw [hrid]; exact hjr, ?_⟩
+        · show cnt = ((cf : Nat) : Int)
+          rw [hm]; omega
+        · rw [hfr, hrid]; exact hs.1 hp
+      · show Tiles (_ :: vm.stack) (List.length _)
+        simp only [Tiles, List.length_append, List.length_replicate]
+        exact ⟨hcnt, trivial, ht⟩
+    · cases hm
+  · cases hm
+
+theorem exec_arg {vm : VM} {pc : Nat} {I : PcInfo} {t s : Int}
+    (hip : vm.ip = pc) (hs : StackOK p c root I vm.stack) (ht : Tiles vm.stack vm.data.length)
+    (hk : checkPc p c root pc (.arg t s) I = true) :
+    ∃ r, execI (.arg t s) vm = .ok r ∧ WInv p c root r.1 := by
+  simp only [checkPc] at hk
+  split at hk
+  · rename_i cf j hp
+    simp only [Bool.and_eq_true, beq_iff_eq, regOK_iff] at hk
+    obtain ⟨⟨ht1, hs1⟩, hn⟩ := hk
+    obtain ⟨callee, rest0, hst, hcs, _, _, _, _, htop⟩ := hs.2 cf j hp
+    have ht' := ht
+    rw [hst] at ht'
+    obtain ⟨_, hsum, ht2⟩ := ht'
+    obtain ⟨a, rest, rfl, hseg, hb⟩ := top_frame htop ht2
+    obtain ⟨v, hv⟩ := rd_ok (d := vm.data) (i := a.dataStart + s) (by omega) (by omega)
+    obtain ⟨d, hd⟩ := wr_ok (d := vm.data) (i := callee.dataStart + t) v (by omega) (by omega)
+    refine ⟨({ vm with data := d, ip := vm.ip + 1 }, false), ?_, ?_⟩
+    · simp only [execI, hst, bind, Except.bind, hv, hd, pure, Except.pure]
+    · exact winv_same (vm := vm) (by show c.info (vm.ip + 1) = some I; rw [hip]; exact hn) hs ht
+        rfl (wr_length hd)
+  · cases hk
+
+theorem exec_exec {vm : VM} {pc : Nat} {I : PcInfo} {entry : Int}
+    (hip : vm.ip = pc) (hs : StackOK p c root I vm.stack) (ht : Tiles vm.stack vm.data.length)
+    (hk : checkPc p c root pc (.exec entry) I = true) :
+    ∃ r, execI (.exec entry) vm = .ok r ∧ WInv p c root r.1 := by
+  simp only [checkPc] at hk
+  split at hk
+  · rename_i cf j hp
+    simp only [Bool.and_eq_true, beq_iff_eq, decide_eq_true_eq] at hk
+    obtain ⟨⟨hj, he⟩, hn⟩ := hk
+    obtain ⟨callee, rest0, hst, hcs, hcm, hrt0, hrt1, _, htop⟩ := hs.2 cf j hp
+    obtain ⟨a, rest, rfl, hseg, ham, hch⟩ := htop
+    refine ⟨({ vm with stack := { callee with retAddr := vm.ip + 1 } :: a :: rest, ip := entry },
+      false), ?_, ?_⟩
+    · simp only [execI, hst, pure, Except.pure]
+    · refine Or.inr ⟨⟨cf, j, none⟩, he, ⟨?_, ?_⟩, ?_⟩
+      · intro _
+        refine ⟨_, _, rfl, hcs, hcm, ?_⟩
+        simp only [Chain]
+        refine ⟨{ I with pend := none }, by rw [hip]; exact hn, rfl, hseg, hj, hrt0, hrt1, ham, hch⟩
+      · intro cf' j' h; cases h
+      · rw [hst] at ht
+        exact ht
+  · cases hk
+
+theorem exec_ret {vm : VM} {pc : Nat} {I : PcInfo} {s : Int}
+    (hs : StackOK p c root I vm.stack) (ht : Tiles vm.stack vm.data.length)
+    (hk : checkPc p c root pc (.ret s) I = true) :
+    ∃ r, execI (.ret s) vm = .ok r ∧ WInv p c root r.1 := by
+  simp only [checkPc, Bool.and_eq_true, decide_eq_true_eq, regOK_iff,
+    Option.isNone_iff_eq_none] at hk
+  obtain ⟨⟨hp, hs1⟩, hrid⟩ := hk
+  obtain ⟨a, rest0, hst, hseg, ham, hch⟩ := hs.1 hp
+  cases rest0 with
+  | nil => simp only [Chain] at hch; omega
+  | cons b rest =>
+    simp only [Chain] at hch
+    obtain ⟨J, hJ, hJp, hbs, _, hrt0, hrt1, hbm, hch'⟩ := hch
+    rw [hst] at ht
+    obtain ⟨_, hsum, _, hsum2, ht3⟩ := ht
+    obtain ⟨v, hv⟩ := rd_ok (d := vm.data) (i := a.dataStart + s) (by omega) (by omega)
+    obtain ⟨d, hd⟩ := wr_ok (d := vm.data) (i := b.dataStart + a.retTarget) v (by omega) (by omega)
+    refine ⟨({ vm with data := d.take a.dataStart, stack := b :: rest, ip := a.retAddr }, false),
+      ?_, ?_⟩
+    · simp only [execI, hst, bind, Except.bind, hv, hd, pure, Except.pure]
+    · refine Or.inr ⟨J, hJ, ⟨fun _ => ⟨b, rest, rfl, hbs, hbm, hch'⟩, ?_⟩, ?_⟩
+      · intro cf j h; rw [hJp] at h; cases h
+      · show Tiles (b :: rest) (List.length (d.take a.dataStart))
+        rw [List.length_take, wr_length hd]
+        refine ⟨by omega, by omega, ht3⟩
+
+end
+
+/-! ### progress and preservation for `step` -/
+
+theorem erase_prepare {i : Instr} {a b d : Int} (h : i.erase = .prepare a b d) :
+    i = .prepare a b d := by
+  cases i <;> simp [Instr.erase] at h ⊢
+  exact h
+
+theorem step_sound {p : Program} {c : Cert} {R : PcInfo} (hc : CertOK p c R) {vm : VM}
+    (hci : CodeInv p vm.code) (hw : WInv p c R.rid vm) :
+    ∃ r, step vm = .ok r ∧ WInv p c R.rid r.1 := by
+  rw [step_eq]
+  rcases hw with ⟨hip, hst, hd⟩ | ⟨I, hi, hs, ht⟩
+  · -- the root PREPARE
+    obtain ⟨fr, mi, t, hget, hfr, hmap, hRf⟩ := hc.head
+    rw [hci.get 0] at hget
+    cases hg : vm.code[0]? with
+    | none => rw [hg] at hget; cases hget
+    | some i =>
+      rw [hg] at hget
+      have hi : i = .prepare fr mi t := erase_prepare (Option.some.inj hget)
+      subst hi
+      have hf : fetch vm.code vm.ip = .ok (.prepare fr mi t) := by
+        rw [hip]; exact fetch_of_get (Int.le_refl 0) hg
+      rw [hf]
+      refine ⟨({ vm with data := vm.data ++ List.replicate fr.toNat 0,
+                         stack := ⟨vm.data.length, fr, t, -1, mi⟩ :: vm.stack,
+                         ip := vm.ip + 1 }, false), rfl, ?_⟩
+      refine Or.inr ⟨R, by show c.info (vm.ip + 1) = some R; rw [hip]; exact hc.c1, ⟨?_, ?_⟩, ?_⟩
+      · intro _
+        refine ⟨_, _, rfl, ?_, ⟨hmap, hfr⟩, ?_⟩
+        · show fr = ((R.frame : Nat) : Int)
+          rw [hRf]; omega
+        · rw [hst]; rfl
+      · intro cf j h; rw [hc.rpend] at h; cases h
+      · show Tiles (_ :: vm.stack) (List.length _)
+        rw [hst, hd]
+        simp only [Tiles, List.length_append, List.length_replicate, List.length_nil]
+        exact ⟨hfr, trivial, trivial⟩
+  · obtain ⟨h0, hlt⟩ := info_lt hi
+    rw [hc.len, ← hci.length] at hlt
+    have hg : vm.code[vm.ip.toNat]? = some vm.code[vm.ip.toNat] := List.getElem?_eq_getElem hlt
+    generalize vm.code[vm.ip.toNat] = i at hg
+    have hf : fetch vm.code vm.ip = .ok i := fetch_of_get h0 hg
+    have hpg : p.code[vm.ip.toNat]? = some i.erase := by rw [hci.get, hg]; rfl
+    have hip : vm.ip = ((vm.ip.toNat : Nat) : Int) := (Int.toNat_of_nonneg h0).symm
+    have hk : checkPc p c R.rid vm.ip.toNat i I = true := by
+      rw [← checkPc_erase]
+      exact hc.chk _ I _ (by rw [← hip]; exact hi) hpg
+    rw [hf]
+    show ∃ r, execI i vm = .ok r ∧ WInv p c R.rid r.1
+    cases i with
+    | potBreak => exact exec_potBreak hip hs ht hk
+    | brk => exact exec_brk hip hs ht hk
+    | halt => exact exec_halt hi hs ht
+    | add t s k => exact exec_add hip hs ht hk
+    | jmp off => exact exec_jmp hip hs ht hk
+    | jmpc off s => exact exec_jmpc hip hs ht hk
+    | prepare cnt idx tgt => exact exec_prepare hip hs ht hk
+    | arg t s => exact exec_arg hip hs ht hk
+    | exec e => exact exec_exec hip hs ht hk
+    | ret s => exact exec_ret hs ht hk
+    | const t k => exact exec_const hip hs ht hk
+    | test t x y => exact exec_test hip hs ht hk
+
+theorem step_preserves {p : Program} {c : Cert} {R : PcInfo} (hc : CertOK p c R) {vm vm' : VM}
+    {r : Bool} (hci : CodeInv p vm.code) (hw : WInv p c R.rid vm) (h : step vm = .ok (vm', r)) :
+    WInv p c R.rid vm' := by
+  obtain ⟨r', h1, h2⟩ := step_sound hc hci hw
+  rw [h] at h1
+  cases h1
+  exact h2
+
+/-! ### the invariant holds in every reachable state -/
+
+theorem winv_init (p : Program) (c : Cert) (root : Nat) : WInv p c root (VM.mk' p) :=
+  Or.inl ⟨rfl, rfl, rfl⟩
+
+theorem reach_winv {p : Program} {c : Cert} {R : PcInfo} (hc : CertOK p c R) :
+    ∀ vm, Reach p vm → WInv p c R.rid vm := by
+  apply reach_induct
+  · exact winv_init p c R.rid
+  · intro vm vm' r hr ih h
+    exact step_preserves hc (CodeInv.reach hc.sites hr) ih h
+  · intro vm vm' b v r _ ih h
+    rcases setBreakPoint_spec h with rfl | ⟨sites, c', _, ⟨_, _, rfl⟩ | ⟨_, _, rfl⟩⟩
+    · exact ih
+    · exact ih
+    · exact ih
+  · intro vm vm' _ ih h
+    obtain ⟨c', _, rfl⟩ := clearBreakpoints_spec h
+    exact ih
+  · intro vm b _ ih; exact ih
+  · intro vm vm' _ _ h
+    obtain ⟨c', _, rfl⟩ := reset_spec h
+    exact Or.inl ⟨rfl, rfl, rfl⟩
+
+/-! ### consequences: every API call is defined -/
+
+theorem isDone_ok {p : Program} {c : Cert} {R : PcInfo} (hc : CertOK p c R) {vm : VM}
+    (hci : CodeInv p vm.code) (hw : WInv p c R.rid vm) : ∃ b, vm.isDone = .ok b := by
+  obtain ⟨r, h, _⟩ := step_sound hc hci hw
+  rw [step_eq] at h
+  unfold VM.isDone
+  cases hf : fetch vm.code vm.ip with
+  | error e => rw [hf] at h; cases h
+  | ok i => exact ⟨_, rfl⟩
+
+theorem foldl_vars_ok (data : List Int) (a : Act) (n : Nat)
+    (hb : a.dataStart + n ≤ data.length) :
+    ∀ (l : List (Int × Bytes)) (acc : List (Bytes × Int)),
+      (∀ e ∈ l, regOK e.1 n = true) →
+      ∃ v, l.foldlM (fun acc e => do
+        let v ← rd data (a.dataStart + e.1)
+        pure (sortedInsert nameLt true (e.2, v) acc)) acc = Except.ok v := by
+  intro l
+  induction l with
+  | nil => intro acc _; exact ⟨acc, rfl⟩
+  | cons e l ih =>
+    intro acc h
+    have he := regOK_iff.1 (h e List.mem_cons_self)
+    obtain ⟨v, hv⟩ := rd_ok (d := data) (i := a.dataStart + e.1) (by omega) (by omega)
+    rw [List.foldlM_cons]
+    simp only [bind, Except.bind, hv, pure, Except.pure]
+    exact ih _ (fun x hx => h x (List.mem_cons_of_mem _ hx))
+
+theorem actVars_ok {p : Program} {vm : VM} {a : Act} (hm : ActMap p a)
+    (hb : a.dataStart + a.segSize.toNat ≤ vm.data.length) :
+    ∃ v, activationVariables p vm a = .ok v := by
+  obtain ⟨hm, _⟩ := hm
+  unfold mapOK at hm
+  rw [Bool.and_eq_true, decide_eq_true_eq] at hm
+  obtain ⟨h0, hm⟩ := hm
+  unfold activationVariables
+  rw [if_neg (by omega)]
+  cases hsm : p.stackMaps[a.dbg.toNat]? with
+  | none => rw [hsm] at hm; cases hm
+  | some sm =>
+    rw [hsm] at hm
+    simp only
+    split
+    · exact ⟨[], rfl⟩
+    · exact foldl_vars_ok vm.data a a.segSize.toNat hb sm.map [] (List.all_eq_true.1 hm)
+
+theorem setBreakPoint_ok {p : Program} (hs : SitesOK p) {vm : VM} (hci : CodeInv p vm.code)
+    (b : BreakPoint) (v : Bool) : ∃ r, VM.setBreakPoint p vm b v = .ok r := by
+  unfold VM.setBreakPoint
+  cases hsite : p.sitesOf b with
+  | none => exact ⟨_, rfl⟩
+  | some sites =>
+    have hin : ∀ i ∈ sites, 0 ≤ i ∧ i.toNat < vm.code.length :=
+      fun i hi => inRange_of_site hci.length (sitesOf_ok hs hsite i hi)
+    simp only [bind, Except.bind, pure, Except.pure]
+    cases v with
+    | true =>
+      obtain ⟨c', hc'⟩ := Theo.setOps_exists Instr.brk hin
+      simp only [if_true, hc']
+      exact ⟨_, rfl⟩
+    | false =>
+      obtain ⟨c', hc'⟩ := Theo.setOps_exists Instr.potBreak hin
+      simp only [Bool.false_eq_true, if_false, hc']
+      exact ⟨_, rfl⟩
+
+theorem clear_defined {p : Program} (hs : SitesOK p) {vm : VM} (hr : Reach p vm) :
+    ∃ vm', VM.clearBreakpoints p vm = .ok vm' := by
+  have h := restoreAll_shape hs (reach_shape hs vm hr)
+  unfold VM.clearBreakpoints
+  simp only [bind, Except.bind, pure, Except.pure, h]
+  exact ⟨_, rfl⟩
+
+/-- C03: every API call is defined in every reachable state of a certified program -/
+theorem checker_sound {p : Program} {c : Cert} (h : checkCert p c = true)
+    {vm : VM} (hr : Reach p vm) :
+    (∃ r, step vm = .ok r) ∧
+    (∃ b, vm.isDone = .ok b) ∧
+    (∀ a ∈ vm.stack, ∃ v, activationVariables p vm a = .ok v) ∧
+    (∀ b v, ∃ r, VM.setBreakPoint p vm b v = .ok r) ∧
+    (∃ vm', VM.clearBreakpoints p vm = .ok vm') ∧
+    (∃ vm', VM.reset p vm = .ok vm') := by
+  obtain ⟨R, hc⟩ := certOK_of_check h
+  have hci := CodeInv.reach hc.sites hr
+  have hw := reach_winv hc vm hr
+  refine ⟨?_, isDone_ok hc hci hw, ?_, setBreakPoint_ok hc.sites hci, clear_defined hc.sites hr,
+    ⟨_, reset_fresh hc.sites hr⟩⟩
+  · obtain ⟨r, h1, _⟩ := step_sound hc hci hw
+    exact ⟨r, h1⟩
+  · intro a ha
+    exact actVars_ok (winv_actMap hw a ha) (tiles_bound _ _ (winv_tiles hw) a ha)
+
+/-- C16: the activation stack is bounded by the number of routines plus the root -/
+theorem stack_bounded {p : Program} {c : Cert} (h : checkCert p c = true)
+    {vm : VM} (hr : Reach p vm) : vm.stack.length ≤ numRoutines p + 1 := by
+  obtain ⟨R, hc⟩ := certOK_of_check h
+  rw [← hc.rrid]
+  exact winv_len (reach_winv hc vm hr)
+
+/-! ### what the certificate says about the code -/
+
+theorem calls_go_down {p : Program} {c : Cert} (h : checkCert p c = true)
+    {pc : Nat} {I : PcInfo} {e : Int} (hi : c.info pc = some I)
+    (hx : p.code[pc]? = some (Instr.exec e)) :
+    ∃ cf j, I.pend = some (cf, j) ∧ j < I.rid ∧ c.info e = some ⟨cf, j, none⟩ := by
+  obtain ⟨R, hc⟩ := certOK_of_check h
+  have hk := hc.chk pc I _ hi hx
+  simp only [checkPc] at hk
+  split at hk
+  · rename_i cf j hp
+    simp only [Bool.and_eq_true, beq_iff_eq, decide_eq_true_eq] at hk
+    exact ⟨cf, j, hp, hk.1.1, hk.1.2⟩
+  · cases hk
+
+theorem structure_ok {p : Program} {c : Cert} (h : checkCert p c = true) :
+    (∃ fr mi t, p.code.head? = some (Instr.prepare fr mi t) ∧ 0 ≤ fr) ∧
+    p.code.getLast? = some Instr.halt ∧
+    (∀ (pc : Nat) (I : PcInfo) off, c.info pc = some I → p.code[pc]? = some (Instr.jmp off) →
+        c.info ((pc : Int) + off) = some I) ∧
+    (∀ (pc : Nat) (I : PcInfo) off s, c.info pc = some I → p.code[pc]? = some (Instr.jmpc off s) →
+        c.info ((pc : Int) + off) = some I ∧ 0 ≤ s ∧ s < I.frame) ∧
+    (∀ (pc : Nat) (I : PcInfo) t s k, c.info pc = some I → p.code[pc]? = some (Instr.add t s k) →
+        0 ≤ t ∧ t < I.frame ∧ 0 ≤ s ∧ s < I.frame) ∧
+    (∀ (pc : Nat) (I : PcInfo) t s, c.info pc = some I → p.code[pc]? = some (Instr.arg t s) →
+        ∃ cf j, I.pend = some (cf, j) ∧ 0 ≤ t ∧ t < cf ∧ 0 ≤ s ∧ s < I.frame) := by
+  obtain ⟨R, hc⟩ := certOK_of_check h
+  refine ⟨?_, hc.last, ?_, ?_, ?_, ?_⟩
+  · obtain ⟨fr, mi, t, hg, h0, _⟩ := hc.head
+    exact ⟨fr, mi, t, by rw [List.head?_eq_getElem?]; exact hg, h0⟩
+  · intro pc I off hi hx
+    have hk := hc.chk pc I _ hi hx
+    simp only [checkPc, Bool.and_eq_true, beq_iff_eq] at hk
+    exact hk.2
+  · intro pc I off s hi hx
+    have hk := hc.chk pc I _ hi hx
+    simp only [checkPc, Bool.and_eq_true, beq_iff_eq, regOK_iff] at hk
+    exact ⟨hk.1.2, hk.1.1.2⟩
+  · intro pc I t s k hi hx
+    have hk := hc.chk pc I _ hi hx
+    simp only [checkPc, Bool.and_eq_true, beq_iff_eq, regOK_iff] at hk
+    exact ⟨hk.1.1.2.1, hk.1.1.2.2, hk.1.2⟩
+  · intro pc I t s hi hx
+    have hk := hc.chk pc I _ hi hx
+    simp only [checkPc] at hk
+    split at hk
+    · rename_i cf j hp
+      simp only [Bool.and_eq_true, beq_iff_eq, regOK_iff] at hk
+      exact ⟨cf, j, hp, hk.1.1.1, hk.1.1.2, hk.1.2⟩
+    · cases hk
+
 end WF
 end Theo
